@@ -62,6 +62,12 @@ def run(ctx):
 
     for i in range(n):
         tx = gen.random_tx(rng, max_in=6 if i % 7 else 20)
+        if i % 3 == 0 and len(tx.ins) >= 2:
+            # inputs spending from the same script: one redeem script (last operation) shared by
+            # inputs that carry different numbers of signatures
+            shared = tx.ins[0][1][-1]
+            for _, ops, _ in tx.ins[1:]:
+                ops[-1] = shared
         raw = tx.raw()
         out = add(raw, "valid")
         dist["valid"] += 1
@@ -112,9 +118,15 @@ def run(ctx):
         req["message"]["input"] = 0
         raw = tx.raw()
         bad = raw[:rng.randrange(4, len(raw))] if k % 3 else raw + b"\x00"
+        if k % 4 == 3:
+            scripts = [b""] + [b"".join(o.raw() for o in ops) for _, ops, _ in tx.ins[1:]]
+            bad = gen.Tx._ser(tx.version, scripts, tx.ins, tx.outs, tx.locktime, tx.wit)
         req["message"]["tx"] = bad.hex()
-        cases.append({"mode": "v5", "kind": "ledger", "lines": [gen.line(req)],
-                      "device": gen.random_device(rng), "meta": {}})
+        # half of them arrive while a reconnection is pending (earlier link error), device back or not
+        issue = k % 2 == 1
+        cases.append({"mode": "v5", "kind": "ledger", "lines": [gen.line(req)], "issue": issue,
+                      "connects": [bool(k % 4 == 1)] if issue else None,
+                      "device": gen.random_device(rng), "meta": {"issue": issue}})
 
     def oracle(case, obs):
         j = stack.reply_json(obs["replies"][-1])
